@@ -14,12 +14,13 @@
 package c12sched
 
 import (
-	"bytes"
+	"context"
 	"runtime"
-	"strconv"
+	"runtime/pprof"
 	"sync"
 	"sync/atomic"
 	"time"
+	"unsafe"
 )
 
 const Unit = time.Millisecond // one tick of the virtual clock
@@ -89,21 +90,24 @@ type Ctl struct {
 	LabelCount map[string]int
 }
 
-var byGoid sync.Map // goroutine id -> *G
+// Which goroutine is running?  Every goroutine started through the shim gets profiler labels of its
+// own (runtime/pprof.SetGoroutineLabels); the pointer to them, which the runtime keeps in the g, is
+// the key.  (Parsing runtime.Stack output costs ~10µs per call and serialises all goroutines of the
+// test binary on the runtime's print lock: half of the harness's CPU time.)  Goroutines the code under
+// test starts with a plain `go` would inherit the labels of their parent: the rewritten files start
+// all of theirs through Go.
+//
+//go:linkname getProfLabel runtime/pprof.runtime_getProfLabel
+func getProfLabel() unsafe.Pointer
 
-func goid() int64 {
-	var buf [64]byte
-	n := runtime.Stack(buf[:], false)
-	// "goroutine 123 [running]:"
-	b := buf[:n]
-	b = b[len("goroutine "):]
-	i := bytes.IndexByte(b, ' ')
-	id, _ := strconv.ParseInt(string(b[:i]), 10, 64)
-	return id
-}
+var byLabel sync.Map // label pointer -> *G
 
 func current() *G {
-	if v, ok := byGoid.Load(goid()); ok {
+	p := getProfLabel()
+	if p == nil {
+		return nil
+	}
+	if v, ok := byLabel.Load(uintptr(p)); ok {
 		return v.(*G)
 	}
 	return nil
@@ -142,11 +146,12 @@ func (c *Ctl) start(name string, fn func(), parent *G) *G {
 		c.OnSpawn(parent, g)
 	}
 	go func() {
-		id := goid()
-		byGoid.Store(id, g)
+		pprof.SetGoroutineLabels(pprof.WithLabels(context.Background(), pprof.Labels("c12sched", name)))
+		id := uintptr(getProfLabel())
+		byLabel.Store(id, g)
 		defer func() {
 			r := recover()
-			byGoid.Delete(id)
+			byLabel.Delete(id)
 			g.fmu.Lock()
 			g.Panic = r
 			g.Finished = true
@@ -189,6 +194,10 @@ func Point(label string) {
 	if g == nil {
 		return
 	}
+	g.point(label)
+}
+
+func (g *G) point(label string) {
 	c := g.ctl
 	if !c.Controlled {
 		c.freePoint(label)
@@ -306,7 +315,7 @@ func Now(label string) time.Time {
 		}
 		return time.Now()
 	}
-	Point(label)
+	g.point(label)
 	return g.ctl.At(g.ctl.VNow())
 }
 
@@ -327,7 +336,7 @@ func NewTimer(label string, d time.Duration) *Timer {
 		rt := time.NewTimer(d)
 		return &Timer{C: rt.C, rt: rt}
 	}
-	Point(label)
+	g.point(label)
 	c := g.ctl
 	u := int64(0)
 	if d > 0 {
